@@ -447,4 +447,104 @@ theorem glycan_parse_total (s : Str) :
 example : parseGlycan MONO (str% "Hex2Xyz1") [] = .error .invalidGlycanFormula := by decide +kernel
 example : parseGlycan MONO (str% "Hex1.2.3") [] = .error .invalidGlycanFormula := by decide +kernel
 
+/-! ## additivity: concatenated glycan texts -/
+
+/-- both paths build the same dict from the same token list: the separated path's fold is `addAll` -/
+theorem glycan_sep_same_dict (g d : Comp) : foldSep d g = addAll d g :=
+  foldSep_eq_addAll g d
+
+/-- the text of two written token lists put one after the other (repeated names allowed, within and across the
+parts) parses to the `addAll`-merge of the two parses, whenever the concatenated text is unambiguous -/
+theorem glycan_parse_concat (names : List Str) (g₁ g₂ : Comp)
+    (hne : ∀ nm ∈ names, nm ≠ []) (hs : names.Pairwise (fun a b => b.length ≤ a.length))
+    (hu : Unambig names (g₁ ++ g₂) = true) (hv : ∀ kv ∈ g₁ ++ g₂, NumOK kv.2) :
+    parseGlycanAux names 0 (writeGlycan g₁ []) [] = .ok (addAll [] g₁) ∧
+    parseGlycanAux names 0 (writeGlycan g₂ []) [] = .ok (addAll [] g₂) ∧
+    parseGlycanAux names 0 (writeGlycan g₁ [] ++ writeGlycan g₂ []) [] =
+      .ok (addAll (addAll [] g₁) (addAll [] g₂)) := by
+  obtain ⟨hu1, hu2⟩ := unambig_append names g₂ g₁ hu
+  have hv1 : ∀ kv ∈ g₁, NumOK kv.2 := fun kv h => hv kv (List.mem_append_left _ h)
+  have hv2 : ∀ kv ∈ g₂, NumOK kv.2 := fun kv h => hv kv (List.mem_append_right _ h)
+  refine ⟨parseGlycanAux_write names hne hs g₁ [] hu1 hv1, parseGlycanAux_write names hne hs g₂ [] hu2 hv2, ?_⟩
+  rw [← writeGlycan_append, parseGlycanAux_write names hne hs (g₁ ++ g₂) [] hu hv, addAll_append,
+    addAll_addAll_nil]
+
+example : Unambig (namesSorted MONO) ([(str% "Hex", Num.ofInt 2), (str% "Fuc", Num.ofInt 1)] ++
+    [(str% "Hex", Num.ofInt 3), (str% "NeuAc", ⟨1/2, true⟩)]) = true := by decide +kernel
+example : addAll (addAll [] [(str% "Hex", Num.ofInt 2), (str% "Fuc", Num.ofInt 1)])
+    (addAll [] [(str% "Hex", Num.ofInt 3), (str% "NeuAc", ⟨1/2, true⟩)]) =
+    [(str% "Hex", Num.ofInt 5), (str% "Fuc", Num.ofInt 1), (str% "NeuAc", ⟨1/2, true⟩)] := by decide +kernel
+
+/-- mass of a written token list (repeated names allowed) = count-weighted sum over the tokens -/
+theorem glycan_mass_str_tokens (g : Comp) (isMono : Bool) (hu : Unambig (namesSorted MONO) g = true)
+    (hv : ∀ kv ∈ g, NumWF kv.2) :
+    glycanMassStr MONO isMono (writeGlycan g []) = .ok (massSum MONO isMono g) := by
+  have hk := unambig_keys _ g hu
+  unfold glycanMassStr
+  rw [parseGlycan_eq_aux, parseGlycanAux_write _ names_nonempty namesSorted_sorted_gen g [] hu
+    (fun kv hkv => numOK_of_wf kv.2 (hv kv hkv))]
+  simp only
+  rw [glycan_mass_linear_gen isMono (addAll [] g), massSum_addAll]
+  · simp [massSum]
+  · intro kv hkv
+    rcases mem_addAll_key hkv with h | h
+    · cases h
+    · simp only [gkeys, List.mem_map] at h
+      obtain ⟨x, hx, hxk⟩ := h
+      rw [← hxk]; exact hk x hx
+
+/-- the mass of a concatenated glycan text is the sum of the masses of the parts -/
+theorem glycan_mass_concat (g₁ g₂ : Comp) (isMono : Bool) (hu : Unambig (namesSorted MONO) (g₁ ++ g₂) = true)
+    (hv : ∀ kv ∈ g₁ ++ g₂, NumWF kv.2) :
+    ∃ m₁ m₂, glycanMassStr MONO isMono (writeGlycan g₁ []) = .ok m₁ ∧
+      glycanMassStr MONO isMono (writeGlycan g₂ []) = .ok m₂ ∧
+      glycanMassStr MONO isMono (writeGlycan g₁ [] ++ writeGlycan g₂ []) = .ok (m₁ + m₂) := by
+  obtain ⟨hu1, hu2⟩ := unambig_append _ g₂ g₁ hu
+  refine ⟨massSum MONO isMono g₁, massSum MONO isMono g₂,
+    glycan_mass_str_tokens g₁ isMono hu1 (fun kv h => hv kv (List.mem_append_left _ h)),
+    glycan_mass_str_tokens g₂ isMono hu2 (fun kv h => hv kv (List.mem_append_right _ h)), ?_⟩
+  rw [← writeGlycan_append, glycan_mass_str_tokens (g₁ ++ g₂) isMono hu hv, massSum_append]
+
+/-- composition of a written token list (repeated names allowed): every element once, its count the count-weighted
+sum over the tokens -/
+theorem glycan_comp_str_tokens (g : Comp) (hu : Unambig (namesSorted MONO) g = true)
+    (hv : ∀ kv ∈ g, NumWF kv.2) :
+    ∃ c, glycanCompStr MONO (writeGlycan g []) = .ok c ∧ (c.map (·.1)).Nodup ∧
+      ∀ el, countAt c el = compSum MONO g el := by
+  have hk := unambig_keys _ g hu
+  unfold glycanCompStr
+  rw [parseGlycan_eq_aux, parseGlycanAux_write _ names_nonempty namesSorted_sorted_gen g [] hu
+    (fun kv hkv => numOK_of_wf kv.2 (hv kv hkv))]
+  simp only
+  obtain ⟨c, h1, h2, h3⟩ := glycan_comp_linear_gen (addAll [] g) (by
+    intro kv hkv
+    rcases mem_addAll_key hkv with h | h
+    · cases h
+    · simp only [gkeys, List.mem_map] at h
+      obtain ⟨x, hx, hxk⟩ := h
+      rw [← hxk]; exact hk x hx)
+  refine ⟨c, h1, h2, ?_⟩
+  intro el
+  rw [h3 el, compSum_addAll]
+  simp [compSum]
+
+/-- the composition of a concatenated glycan text is, element by element, the sum of the compositions of the parts -/
+theorem glycan_comp_concat (g₁ g₂ : Comp) (hu : Unambig (namesSorted MONO) (g₁ ++ g₂) = true)
+    (hv : ∀ kv ∈ g₁ ++ g₂, NumWF kv.2) :
+    ∃ c₁ c₂ c, glycanCompStr MONO (writeGlycan g₁ []) = .ok c₁ ∧
+      glycanCompStr MONO (writeGlycan g₂ []) = .ok c₂ ∧
+      glycanCompStr MONO (writeGlycan g₁ [] ++ writeGlycan g₂ []) = .ok c ∧
+      ∀ el, countAt c el = countAt c₁ el + countAt c₂ el := by
+  obtain ⟨hu1, hu2⟩ := unambig_append _ g₂ g₁ hu
+  obtain ⟨c₁, h1, _, e1⟩ := glycan_comp_str_tokens g₁ hu1 (fun kv h => hv kv (List.mem_append_left _ h))
+  obtain ⟨c₂, h2, _, e2⟩ := glycan_comp_str_tokens g₂ hu2 (fun kv h => hv kv (List.mem_append_right _ h))
+  obtain ⟨c, h, _, e⟩ := glycan_comp_str_tokens (g₁ ++ g₂) hu hv
+  rw [writeGlycan_append] at h
+  refine ⟨c₁, c₂, c, h1, h2, h, ?_⟩
+  intro el
+  rw [e el, e1 el, e2 el, compSum_append]
+
+example : glycanCompStr MONO (str% "Hex2Fuc1" ++ str% "Hex3") =
+    .ok [(str% "C", Num.ofInt 36), (str% "H", Num.ofInt 60), (str% "O", Num.ofInt 29)] := by decide +kernel
+
 end C15Glycan
